@@ -1487,6 +1487,12 @@ var unaryGopNames = map[string]string{
 }
 
 func loadFuncBody(ctx *blockCtx, fn *gogen.Func, body *ast.BlockStmt, sigBase *types.Signature, src ast.Node) {
+	// a function is loaded when it is first used, possibly in the middle of a
+	// statement of another function: keep that statement's pending comments
+	comments, once := ctx.cb.BackupComments()
+	defer func() {
+		ctx.cb.SetComments(comments, once)
+	}()
 	cb := fn.BodyStart(ctx.pkg, body)
 	cb.SetComments(nil, false)
 	if sigBase != nil {
